@@ -84,7 +84,10 @@ func isFrameableHTMLResponse(statusCode int, responseHeader http.Header) bool {
 		}
 	}
 	for _, contentType := range responseHeader[contentTypeHeader] {
-		if strings.Contains(contentType, "text/html") || strings.Contains(contentType, "application/xhtml+xml") {
+		// Only the media type counts, not its parameters (a JSON document does not
+		// become HTML by naming an HTML profile or file in a parameter).
+		mediaType := strings.SplitN(contentType, ";", 2)[0]
+		if strings.Contains(mediaType, "text/html") || strings.Contains(mediaType, "application/xhtml+xml") {
 			return true
 		}
 	}
